@@ -634,6 +634,11 @@ def check(ctx):
     helper_contract(ctx, [helpers[n] for n in ("set_child_error", "extend_errors", "update_children_errors")])
 
 
+    # ---------------- R14: the mock on which the remaining validators run when a sibling field is invalid
+    ctx.rule("C02.R14", "when a field is invalid the validators whose own fields are valid still run, on a mock of the object: the mock returns every deserialized value as it is (None included), so that their violations are reported next to the field's one", floor=1)
+    from .c10 import mock_presence_rule
+    mock_presence_rule(ctx, "C02.R14")
+
 def _is_set_expr(e) -> bool:
     if isinstance(e, (ast.Set, ast.SetComp)):
         return True
@@ -735,6 +740,7 @@ def deserialize(self, data):
 
 
 def mutants(mb):
+    mb.add_text("mock-none-is-absent", "apischema/validation/mock.py", "        if name in values:\n            return values[name]\n", "        value = values.get(name)\n        if value is not None:\n            return value\n", "C02.R14", "presence")
     mb.add_text("optional-coercer-unguarded", "apischema/deserialization/methods.py", "            if self.coercer is not None:\n                try:\n                    if self.coercer(NoneType, data) is None:\n                        return None\n                except ValidationError:\n                    pass  # not coercible to None: the errors of the value are reported\n            raise merge_errors(err, bad_type(data, NoneType))\n",
                 "            if self.coercer is not None and self.coercer(NoneType, data) is None:\n                return None\n            raise merge_errors(err, bad_type(data, NoneType))\n", "C02.R13", "OptionalMethod")
     P = "apischema/deserialization/methods.py"
